@@ -11,6 +11,7 @@ import NixModel.Drive.Crash
 import NixModel.Drive.Ids
 import NixModel.Drive.Props
 import NixModel.Drive.Frame
+import NixModel.Drive.Search
 /-
   nixmodel: reads a trace (op lines with the implementation's recorded result after `=>`),
   replays each op on the Lean model, evaluates the property relations on the implementation's
@@ -33,7 +34,8 @@ def handlers : List (DState → String → List String → List String → Optio
     (if op == "id_forceid" && impl.head? == some "ok" then
       { st' with smodel := { st'.smodel with store := st'.smodel.store.setAttr 0 "id" ((impl[1]?).getD "?") } } else st', o),
   Props.handle,
-  Frame.handle
+  Frame.handle,
+  Search.handle
 ]
 
 def step (st : DState) (line : String) : DState × Option String :=
@@ -43,8 +45,21 @@ def step (st : DState) (line : String) : DState × Option String :=
   | [] => (st, none)
   | op :: args =>
     if op == "reset" then ({}, none) else
+    -- the search family watches the store family's ops to know the entity forest (no verdict of its own there)
+    let st := Search.observe st op args impl
     match handlers.findSome? fun h => h st op args impl with
-    | some (st', o) => (st', some o.render)
+    | some (st', o) =>
+      -- sr_mkalias creates a source NAMED like the id of another entity: for the store family (impl-side state and model)
+      -- this is `mk <slot> O <parent> <that id> <type>`
+      let st' := match op, args with
+        | "sr_mkalias", [slot, parent, other, type] =>
+          (match StoreModel.keyOf st'.smodel "idof" other with
+          | some id => (match Store.handle st' "mk" [slot, "O", parent, Proto.fmtStr id, type] impl with
+            | some (st'', _) => st''
+            | none => st')
+          | none => { st' with smodel := { st'.smodel with lost := some "sr_mkalias on an unknown slot" } })
+        | _, _ => st'
+      (st', some o.render)
     | none => (st, some Out.unknown.render)
 
 partial def loop (h : IO.FS.Stream) (out : IO.FS.Stream) (st : DState) : IO Unit := do
